@@ -42,7 +42,7 @@ bind(Either &&_either, Function const &_function) requires fcppt::either::is_obj
 
   return _either.has_success()
              ? _function(fcppt::move_if_rvalue<Either>(_either.get_success_unsafe()))
-             : result_type{_either.get_failure_unsafe()};
+             : result_type{fcppt::move_if_rvalue<Either>(_either.get_failure_unsafe())};
 }
 }
 
